@@ -43,9 +43,9 @@ theorem determine_cases (ss : List Stmt) (i : Nat) (s : Stmt) :
       · simp
       · rename_i rel _ _
         dsimp only
-        generalize (if rel < i then sumSizes ss rel i else sumSizes ss i rel) = pr
-        generalize (if rel < i then s.pkg.size - 1 else 0) + exprExtra s.pkg.additional = adj
-        generalize (if rel < i then 128 else 127) = lim
+        generalize (if rel ≤ i then sumSizes ss rel i else sumSizes ss i rel) = pr
+        generalize (if rel ≤ i then s.pkg.size - 1 else 0) + exprExtra s.pkg.additional = adj
+        generalize (if rel ≤ i then 128 else 127) = lim
         obtain ⟨mn, mx⟩ := pr
         dsimp only
         by_cases h1 : mn + 2 + adj ≤ lim ∧ mx + 2 + adj ≤ lim
